@@ -140,7 +140,7 @@ def features(cs, ts, method, u, params):
 U0 = dict(scheme="http", host="example.com", path="/r")
 URLS = []
 for _scheme in ("http", "HTTP", "https", "hTTps"):
-    for _host in ("example.com", "EXAMPLE.com", "Ex-1.Example.COM"):
+    for _host in ("example.com", "EXAMPLE.com", "Ex-1.Example.COM", "[::1]", "[2001:DB8::1]"):
         for _port in (None, "8080", "80", "443"):
             for _path, _params in (("/", ""), ("/a%20b/C~d", ""), ("/r/-._", ""),
                                    ("/p", ";x=1"), ("/%7Eu", "")):
@@ -150,6 +150,9 @@ URLS.append(dict(scheme="http", userinfo="Us:pW", host="example.com", path="/r")
 URLS.append(dict(scheme="https", userinfo="u", host="EXAMPLE.com", port="8443", path="/r"))
 METHODS = ["GET", "get", "POST", "Post", "delete"]
 PSETS = [(("oauth_nonce", "n1"), ("b", "2")), (("z", "a b"), ("A", "é"))]
+# values are documented as Any and sent as str(value): values that compare equal but print differently
+PSETS_TYPED = [(("page", 1), ("trim_user", True), ("ratio", 1.0)), (("trim_user", True), ("page", 1)),
+               (("off", 0), ("flag", False), ("z", 0.0)), (("flag", False), ("off", 0)), (("n", None), ("m", 2))]
 
 
 def cases(part, tier):
@@ -198,6 +201,16 @@ def cases(part, tier):
                 for ps in PSETS:
                     yield ("cs", "ts", m, u, ps)
                 yield ("cs", None, m, u, ())
+        if part[1] == 0:
+            for ps in PSETS_TYPED + list(reversed(PSETS_TYPED)):
+                yield ("cs", "ts", "GET", U0, ps)
+    elif kind == "mixin":
+        # the signed parameter set a mixin produces for a resource request (both protocol versions, every method)
+        for ver in ("1.0", "1.0a"):
+            for m in METHODS:
+                for u in (U0, URLS[7], URLS[-1 - 2]):
+                    for ps in (PSETS[1], (("b", "2"), ("a", "1 /")), ()):
+                        yield ("c s", "t&s", m, u, ps, ver)
     else:
         raise AssertionError(part)
 
@@ -229,7 +242,7 @@ class C48(Check):
                  "from scratch; mismatches classified by named single deviations of the reference")
     assumptions = [
         "URLs carry no query or fragment (callers pass query parameters in `parameters`)",
-        "parameter values are str; parameter names are distinct (dict)",
+        "parameter names are distinct (dict); values are str, plus a block of int / bool / float / None values (sent as str(value))",
         "URLs with userinfo: RFC 5849 ties the authority to the Host header, which has no "
         "userinfo; executed, crash-checked, not asserted (EITHER)",
         "OAuth Core 1.0 and 1.0a are held to the RFC 5849 reference (same base string and key "
@@ -237,12 +250,32 @@ class C48(Check):
     ]
 
     BLOCKS = [("single", 12), ("pairs", 4), ("triples", 4),
-              ("secrets", 8), ("urls", 4)]
+              ("secrets", 8), ("urls", 4), ("mixin", 1)]
 
     def partitions(self, tier):
         return [(b, i, n) for b, n in self.BLOCKS for i in range(n)]
 
+    def _eval_mixin(self, auth, case):
+        cs, ts, method, u, params, ver = case
+        url = build_url(u)
+
+        class M(auth.OAuthMixin):
+            _OAUTH_VERSION = ver
+
+            def _oauth_consumer_token(self):
+                return {"key": "ck", "secret": cs}
+        try:
+            got = M()._oauth_request_parameters(url, {"key": "tk", "secret": ts}, dict(params), method=method)
+        except Exception as e:
+            return url, {"mixin": ("exc", "%s: %s" % (type(e).__name__, e))}, None
+        signed = [(k, v) for k, v in got.items() if k != "oauth_signature"] + [(k, v) for k, v in params if k not in got]
+        want = ref_signature(cs, ts, method, u, [(k, str(v)) for k, v in signed])
+        sig = got.get("oauth_signature")
+        return url, {"mixin": ("ok", sig if isinstance(sig, bytes) else str(sig).encode())}, want
+
     def _eval(self, auth, case):
+        if len(case) == 6:
+            return self._eval_mixin(auth, case)
         cs, ts, method, u, params = case
         url = build_url(u)
         consumer = {"key": "ck", "secret": cs}
@@ -254,16 +287,30 @@ class C48(Check):
                 out[name] = ("ok", fn(consumer, method, url, pd, token))
             except Exception as e:
                 out[name] = ("exc", "%s: %s" % (type(e).__name__, e))
-        want = ref_signature(cs, ts, method, u, list(params))
+        want = ref_signature(cs, ts, method, u, [(k, str(v)) for k, v in params])
         return url, out, want
 
     def run_partition(self, part, tier, st):
         from tornado import auth
         for case in cases(part, tier):
-            cs, ts, method, u, params = case
+            cs, ts, method, u, params = case[:5]
             st.ev()
             url, out, want = self._eval(auth, case)
-            feats = features(cs, ts, method, u, params)
+            if len(case) == 6:
+                kind, got = out["mixin"]
+                st.nontriv(("mixin",) + (cs, ts, method, url, params, case[5]))
+                st.outcome(h(("mixin", kind)))
+                jc = {"cs": cs, "ts": ts, "method": method, "u": u, "params": list(params), "ver": case[5]}
+                if kind != "ok":
+                    detrep.report(st, "mixin:exception", "_oauth_request_parameters raised %s for %s %s" % (got, method, url), jc)
+                elif got != want and not url_class(u):
+                    detrep.report(st, "mixin:request-signature:%s:%s" % (case[5], "GET" if method.upper() == "GET" else "non-GET"),
+                                  "OAuth %s mixin, %s %s %r: oauth_signature %s, RFC 5849 over the returned parameters gives %s"
+                                  % (case[5], method, url, dict(params), got.decode("latin-1"), want.decode()), jc)
+                continue
+            feats = features(cs, ts, method, u, tuple((k, str(v)) for k, v in params))
+            if any(not isinstance(v, str) for _, v in params):
+                feats = list(feats) + ["typed-values"]
             if feats:
                 st.nontriv((cs, ts, method, url, params))
             st.outcome(h((out["sig10"], out["sig10a"])))
@@ -287,7 +334,7 @@ class C48(Check):
                     continue
                 if got == want:
                     continue
-                devs = explain(got, cs, ts, method, u, list(params))
+                devs = explain(got, cs, ts, method, u, [(k, str(v)) for k, v in params])
                 msg = ("%s(consumer_secret=%r, token_secret=%r, %r, %r, %r) = %s, RFC 5849 "
                        "gives %s" % (name, cs, ts, method, url, dict(params),
                                      got.decode("latin-1"), want.decode()))
@@ -307,6 +354,10 @@ class C48(Check):
         u = {k: v for k, v in case["u"].items() if v is not None}
         params = tuple((k, v) for k, v in case["params"])
         c = (case["cs"], case["ts"], case["method"], u, params)
+        if case.get("ver"):
+            url, out, want = self._eval(auth, c + (case["ver"],))
+            return "OAuth %s mixin %s %s %r\n  oauth_signature %r\n  RFC 5849 over the returned parameters: %r" % (
+                case["ver"], case["method"], url, dict(params), out["mixin"], want)
         url, out, want = self._eval(auth, c)
         lines = ["consumer_secret=%r token_secret=%r method=%r url=%r parameters=%r"
                  % (case["cs"], case["ts"], case["method"], url, dict(params)),
@@ -314,7 +365,7 @@ class C48(Check):
         for name in ("sig10", "sig10a"):
             kind, got = out[name]
             if kind == "ok":
-                devs = None if got == want else explain(got, *c[:4], list(params))
+                devs = None if got == want else explain(got, *c[:4], [(k, str(v)) for k, v in params])
                 lines.append("  real %-7s       : %s  %s" % (
                     name, got.decode("latin-1"),
                     "== reference" if got == want else "MISMATCH (reproduced by reference with %r)" % (devs,)))
